@@ -163,3 +163,140 @@ theorem tcp_direct_complete {s : TcpSt} {last : Sent}
     · by_cases hs : (fl / 2) % 2 = 1 <;> simp [hs, ha, hr]
 
 end TRV.Proofs
+
+namespace TRV.Proofs
+open TRV TRV.Wire TRV.Build TRV.Drv
+
+/-- the option bytes NOP NOP SACK(one block): what Linux answers to one out-of-order segment -/
+def sackOpt (left right : Nat) : Bytes := [byte 1, byte 1, byte 5, byte 10] ++ be32 left ++ be32 right
+
+theorem sackOpt_length (left right : Nat) : (sackOpt left right).length = 12 := by simp [sackOpt, be32, be16]
+
+/-- a TCP header with data offset 8 carrying exactly that option -/
+def rawTcpSack (sp dp seq ack fl win ck urg left right : Nat) : Bytes :=
+  be16 sp ++ be16 dp ++ be32 seq ++ be32 ack ++ [byte 0x80, byte fl] ++ be16 win ++ be16 ck ++ be16 urg ++ sackOpt left right
+
+theorem rawTcpSack_length (sp dp seq ack fl win ck urg left right : Nat) :
+    (rawTcpSack sp dp seq ack fl win ck urg left right).length = 32 := by
+  simp [rawTcpSack, sackOpt, be16, be32]
+
+theorem tcpOpts_sackOpt (left right : Nat) :
+    tcpOpts 12 (sackOpt left right) = some [(1, []), (1, []), (5, be32 left ++ be32 right)] := by
+  simp [sackOpt, tcpOpts, be32, be16, byte_toNat, slice]
+
+theorem tcp_rawTcpSack {sp dp seq ack fl win ck urg left right : Nat} {pl : Bytes}
+    (h1 : sp < 65536) (h2 : dp < 65536) (h3 : seq < 4294967296) (h4 : ack < 4294967296) (h5 : fl < 256) :
+    tcp (rawTcpSack sp dp seq ack fl win ck urg left right ++ pl) =
+      some { sport := sp, dport := dp, seq := seq, ack := ack, flags := fl,
+             opts := [(1, []), (1, []), (5, be32 left ++ be32 right)], payload := pl } := by
+  have hL := rawTcpSack_length sp dp seq ack fl win ck urg left right
+  have e0 : u16 (rawTcpSack sp dp seq ack fl win ck urg left right ++ pl) 0 = some sp := by
+    simp [rawTcpSack, be16, be32, u16, u8]
+    rw [byte_toNat (by omega), byte_toNat (by omega)]; omega
+  have e2 : u16 (rawTcpSack sp dp seq ack fl win ck urg left right ++ pl) 2 = some dp := by
+    simp [rawTcpSack, be16, be32, u16, u8]
+    rw [byte_toNat (by omega), byte_toNat (by omega)]; omega
+  have e4 : u32 (rawTcpSack sp dp seq ack fl win ck urg left right ++ pl) 4 = some seq := by
+    simp [rawTcpSack, be16, be32, u32, u16, u8]
+    rw [byte_toNat (by omega), byte_toNat (by omega), byte_toNat (by omega), byte_toNat (by omega)]; omega
+  have e8 : u32 (rawTcpSack sp dp seq ack fl win ck urg left right ++ pl) 8 = some ack := by
+    simp [rawTcpSack, be16, be32, u32, u16, u8]
+    rw [byte_toNat (by omega), byte_toNat (by omega), byte_toNat (by omega), byte_toNat (by omega)]; omega
+  have e12 : u8 (rawTcpSack sp dp seq ack fl win ck urg left right ++ pl) 12 = some 0x80 := by
+    simp [rawTcpSack, be16, be32, u8, byte_toNat]
+  have e13 : u8 (rawTcpSack sp dp seq ack fl win ck urg left right ++ pl) 13 = some fl := by
+    simp [rawTcpSack, be16, be32, u8, byte_toNat, h5]
+  have hsl : slice (rawTcpSack sp dp seq ack fl win ck urg left right ++ pl) 20 (8 * 4 - 20) = sackOpt left right := by
+    simp [rawTcpSack, slice, be16, be32, sackOpt]
+  have hd : (rawTcpSack sp dp seq ack fl win ck urg left right ++ pl).drop (8 * 4) = pl := by
+    rw [show 8 * 4 = (rawTcpSack sp dp seq ack fl win ck urg left right).length by rw [hL]]
+    simp
+  unfold tcp
+  rw [if_neg (by rw [List.length_append, hL]; omega), e0, e2, e4, e8, e12, e13]
+  simp only [show (0x80 : Nat) / 16 = 8 by decide]
+  rw [if_neg (by omega), if_neg (by rw [List.length_append, hL]; omega), hsl,
+    show 8 * 4 - 20 = 12 by decide, tcpOpts_sackOpt, hd]
+
+theorem minSack_nn5 (isn : Nat) (d : Bytes) :
+    minSack isn [(1, []), (1, []), (5, d)] =
+      match sackEdges isn d.length d with
+      | [] => none
+      | e :: es => some (es.foldl Nat.min e) := by
+  simp [minSack, List.filter, List.flatMap]
+  rfl
+
+theorem minSack_of_edges {isn x : Nat} {d : Bytes} (h : sackEdges isn d.length d = [x]) :
+    minSack isn [(1, []), (1, []), (5, d)] = some x := by
+  rw [minSack_nn5, h]
+  simp only [List.foldl_nil]
+
+theorem sackEdges_one {isn l n : Nat} {d : Bytes} (hlen : d.length = 8) (e : u32 d 0 = some l) :
+    sackEdges isn (n + 2) d = [(l + 4294967296 - isn % 4294967296) % 4294967296] := by
+  have hdrop : (d.drop 8).length = 0 := by simp [hlen]
+  rw [sackEdges, if_neg (by omega), e]
+  simp only
+  rw [sackEdges, if_pos (by omega)]
+
+theorem be32x2_length (a b : Nat) : (be32 a ++ be32 b).length = 8 := by simp [be32, be16]
+
+theorem be32x2_u32 {a b : Nat} (ha : a < 4294967296) : u32 (be32 a ++ be32 b) 0 = some a := by
+  simp [be16, be32, u32, u16, u8]
+  rw [byte_toNat (by omega), byte_toNat (by omega), byte_toNat (by omega), byte_toNat (by omega)]; omega
+
+/-- the smallest relative left edge of that option list (kept in small generic steps: the kernel
+    must never be asked to normalise a term containing the literal 2^32 next to a variable) -/
+theorem minSack_sackOpt {isn left right : Nat} (hl : left < 4294967296) (hr : right < 4294967296) :
+    minSack isn [(1, []), (1, []), (5, be32 left ++ be32 right)] =
+      some ((left + 4294967296 - isn % 4294967296) % 4294967296) :=
+  minSack_of_edges (by rw [be32x2_length]; exact sackEdges_one (n := 6) (be32x2_length left right) (be32x2_u32 hl))
+
+/-- SACK completeness on bytes, direct form: an ACK (no SYN/FIN/RST; any other flag bits, sequence and
+    acknowledgement numbers, window, checksum, urgent pointer, payload; DF or not) from the target port
+    to the probe's port whose one SACK block starts at ISN + t (mod 2^32, every ISN) is accepted as the
+    destination's answer to the probe for TTL `t` -/
+theorem sack_direct_complete {s : SackSt} {t : Nat} {p : Sent}
+    {otos oid ff ottl ock seq ack fl win ck urg right : Nat} {pl : Bytes}
+    (hl : s.cfg.localA.length = 4) (htg : s.cfg.target.length = 4)
+    (h1 : otos < 256) (h2 : oid < 65536) (h3 : ottl < 256) (hff : ff < 65536) (hfr : ff % 16384 = 0)
+    (b1 : s.cfg.tport < 65536) (b2 : s.cfg.lport < 65536) (b3 : seq < 4294967296) (b4 : ack < 4294967296) (b5 : fl < 256)
+    (hfl : fl % 2 = 0 ∧ (fl / 2) % 2 = 0 ∧ (fl / 4) % 2 = 0)
+    (b6 : s.cfg.isn < 4294967296) (b7 : t < 4294967296) (b8 : right < 4294967296)
+    (hsize : 52 + pl.length ≤ 1024) (hlk : sackLookup s t = some p) :
+    sackRecv s (rawHdr4 otos (52 + pl.length) oid ff ottl 6 ock s.cfg.target s.cfg.localA ++
+        (rawTcpSack s.cfg.tport s.cfg.lport seq ack fl win ck urg ((s.cfg.isn + t) % 4294967296) right ++ pl)) =
+      .accept t s.cfg.target true p.time := by
+  have hlenpl : (rawTcpSack s.cfg.tport s.cfg.lport seq ack fl win ck urg ((s.cfg.isn + t) % 4294967296) right ++ pl).length = 32 + pl.length := by
+    rw [List.length_append, rawTcpSack_length]
+  have hL : (rawHdr4 otos (52 + pl.length) oid ff ottl 6 ock s.cfg.target s.cfg.localA ++
+        (rawTcpSack s.cfg.tport s.cfg.lport seq ack fl win ck urg ((s.cfg.isn + t) % 4294967296) right ++ pl)).length = 52 + pl.length := by
+    rw [List.length_append, rawHdr4_length _ _ _ _ _ _ _ _ _ htg hl, hlenpl]; omega
+  have hip := ip4_rawHdr4 (tos := otos) (len := 52 + pl.length) (id := oid) (ff := ff) (ttl := ottl) (proto := 6)
+    (ck := ock) (pl := rawTcpSack s.cfg.tport s.cfg.lport seq ack fl win ck urg ((s.cfg.isn + t) % 4294967296) right ++ pl)
+    htg hl h1 (by omega) (by omega) h2 hff h3 (by omega)
+  have htk : (rawTcpSack s.cfg.tport s.cfg.lport seq ack fl win ck urg ((s.cfg.isn + t) % 4294967296) right ++ pl).take (52 + pl.length - 20) =
+      rawTcpSack s.cfg.tport s.cfg.lport seq ack fl win ck urg ((s.cfg.isn + t) % 4294967296) right ++ pl :=
+    take_of_le (by rw [hlenpl]; omega)
+  rw [htk] at hip
+  have hb0 : u8 (rawHdr4 otos (52 + pl.length) oid ff ottl 6 ock s.cfg.target s.cfg.localA ++
+        (rawTcpSack s.cfg.tport s.cfg.lport seq ack fl win ck urg ((s.cfg.isn + t) % 4294967296) right ++ pl)) 0 = some 0x45 := by
+    obtain ⟨r0, r1, r2, r3, hr⟩ := len4 htg
+    simp [rawHdr4, u8, byte_toNat]
+  have hne : (rawHdr4 otos (52 + pl.length) oid ff ottl 6 ock s.cfg.target s.cfg.localA ++
+        (rawTcpSack s.cfg.tport s.cfg.lport seq ack fl win ck urg ((s.cfg.isn + t) % 4294967296) right ++ pl)) ≠ [] := by
+    simp [rawHdr4]
+  have hne2 : (rawTcpSack s.cfg.tport s.cfg.lport seq ack fl win ck urg ((s.cfg.isn + t) % 4294967296) right ++ pl).isEmpty = false := by
+    simp [rawTcpSack, be16, be32]
+  have hrel : ((s.cfg.isn + t) % 4294967296 + 4294967296 - s.cfg.isn % 4294967296) % 4294967296 = t := by omega
+  unfold sackRecv
+  rw [if_neg (by simpa using isEmpty_false_of_ne hne), take_of_le (by rw [hL]; simp [bufSize]; omega)]
+  unfold parse
+  rw [hb0]
+  simp only [show (0x45 : Nat) / 16 = 4 by decide, if_true, hip, hne2, IP4.isFrag, hfr,
+    Bool.false_eq_true, if_false, tcp_rawTcpSack b1 b2 b3 b4 b5, Option.map_some]
+  have hms := minSack_sackOpt (isn := s.cfg.isn) (left := (s.cfg.isn + t) % 4294967296) (right := right)
+    (Nat.mod_lt _ (by decide)) b8
+  rw [hrel] at hms
+  simp only [L3.src, L3.dst, TCP.syn, TCP.fin, TCP.rst]
+  simp [hfl.1, hfl.2.1, hfl.2.2, hms, hlk]
+
+end TRV.Proofs
